@@ -337,6 +337,7 @@ class CParser:
             if decls[0]["decl"] is None:
                 if (
                     len(spec["type"]) < 2
+                    or not isinstance(spec["type"][-1], c_ast.IdentifierType)
                     or len(spec["type"][-1].names) != 1
                     or not self._is_type_in_scope(spec["type"][-1].names[0])
                 ):
@@ -368,6 +369,13 @@ class CParser:
                 while not isinstance(decls_0_tail, c_ast.TypeDecl):
                     decls_0_tail = decls_0_tail.type
                 if decls_0_tail.declname is None:
+                    if not spec["type"] or not isinstance(
+                        spec["type"][-1], c_ast.IdentifierType
+                    ):
+                        self._parse_error(
+                            "Invalid declaration",
+                            decls[0]["decl"].coord or self.clex.filename,
+                        )
                     decls_0_tail.declname = spec["type"][-1].names[0]
                     del spec["type"][-1]
 
@@ -1435,6 +1443,7 @@ class CParser:
     ) -> c_ast.Node:
         if (
             len(spec["type"]) > 1
+            and isinstance(spec["type"][-1], c_ast.IdentifierType)
             and len(spec["type"][-1].names) == 1
             and self._is_type_in_scope(spec["type"][-1].names[0])
         ):
